@@ -329,6 +329,18 @@ fn divisors(n: usize) -> Vec<Pub> {
         v.push(Pub { name: "d=2^64".into(), p: x, k: 0 });
     }
     v.push(Pub { name: "d=generic".into(), p: (0..n).map(|i| g.rotate_left(9 * i as u32) | 1).collect(), k: 0 });
+    if n >= 3 {
+        // divisors for which a structured dividend (B^(n-1), runs of MAX) makes Knuth's quotient estimate overshoot:
+        // the add-back correction must be as invisible as every other step
+        let mut x = vec![0; n];
+        x[0] = MAX;
+        x[n - 2] = TOP;
+        v.push(Pub { name: "d=2^(64(n-1)-1)+2^64-1 (add-back)".into(), p: x, k: 0 });
+        let mut y = vec![0; n];
+        y[0] = MAX;
+        y[n - 1] = TOP;
+        v.push(Pub { name: "d=2^(64n-1)+2^64-1 (add-back)".into(), p: y, k: 0 });
+    }
     v
 }
 
